@@ -52,6 +52,11 @@ def _jobs(tier):
                 yield ("join", infix, list(lst))
     for lst in itertools.product([0, 7, -3, 10], repeat=3):
         yield ("joini", b", ", list(lst))
+    words = [b"a", b"ab", b"b,", b"x"]
+    for n in range(0, 5):
+        for lst in itertools.product(words, repeat=n):
+            for infix in (b" ", b",", b"", b", "):
+                yield ("joins", infix, list(lst))
 
 
 def _random_jobs(rng, n):
@@ -86,6 +91,8 @@ def op_line(job):
         return "JOIN %s %s" % ("-" if job[1] is None else hx(job[1]), " ".join(hx(e) for e in job[2]))
     if k == "joini":
         return "JOINI %s %s" % (hx(job[1]), " ".join(str(i) for i in job[2]))
+    if k == "joins":
+        return "JOINS %s %s" % (hx(job[1]), " ".join(hx(e) for e in job[2]))
     raise ValueError(job)
 
 
@@ -120,6 +127,8 @@ def hostile_class(job):
     if k == "sw":
         return "empty-prefix" if not job[2] else ("prefix" if job[1].startswith(job[2]) else
                                                   ("occurs-later" if job[2] in job[1] else "absent"))
+    if k == "joins":
+        return "single-pass-range"
     if k == "join":
         lst = job[2]
         if any(e == b"" for e in lst):
@@ -179,15 +188,18 @@ def judge(job, res):
         if got != job[1].startswith(job[2]):
             return ("starts_with:not-the-prefix-relation:" + cls, "starts_with(%r, %r) = %s" % (job[1], job[2], got))
         return None
-    if k in ("join", "joini"):
+    if k in ("join", "joini", "joins"):
         infix = b" " if job[1] is None else job[1]
-        elems = job[2] if k == "join" else [str(i).encode() for i in job[2]]
+        elems = job[2] if k != "joini" else [str(i).encode() for i in job[2]]
         if not line.startswith("J ok "):
             return ("join:raised:" + cls, line[:200])
         f = line.split()
         a, b = bytes.fromhex(f[2][1:]), bytes.fromhex(f[3][1:])
         want = infix.join(e for e in elems if e)
         if a != b:
+            if k == "joins":
+                return ("join:single-pass-input-range-differs-from-multi-pass",
+                        "input iterators %r, list iterators %r for %r" % (a, b, elems))
             return ("join:overloads-disagree", "vector overload %r, iterator overload %r" % (a, b))
         if a != want:
             sub = "differs"
@@ -214,6 +226,8 @@ def nontrivial(job):
         return bool(job[2]) and job[2] in job[1]
     if k == "join":
         return any(e == b"" or e.endswith(b" ") for e in job[2])
+    if k == "joins":
+        return len(job[2]) >= 2
     return True
 
 
